@@ -233,14 +233,14 @@ func (m *mismatch) sig() string {
 // ---- history ----
 
 type hist struct {
-	r     *core.Run
-	rnd   *rand.Rand
-	cat   *g9blib.Catalog
-	e     *core.Eng
-	s     *core.Sess
-	log   []string
-	nameN int
-	gone  []string // "TABLE d.x" style objects that must no longer be showable
+	r        *core.Run
+	rnd      *rand.Rand
+	cat      *g9blib.Catalog
+	e        *core.Eng
+	s        *core.Sess
+	log      []string
+	nameN    int
+	gone     []string        // "TABLE d.x" style objects that must no longer be showable
 	oldNames map[string]bool // former names of renamed tables
 }
 
